@@ -890,6 +890,33 @@ type KeySharePrivateKeys struct {
 	Ecdhe      *ecdh.PrivateKey
 	Mlkem      *mlkem.DecapsulationKey768
 	MlkemEcdhe *ecdh.PrivateKey
+
+	// EcdheKeys and MlkemKeys hold the private key of every generated key share by its
+	// group (for a hybrid group EcdheKeys holds the X25519 key of that share). They matter
+	// when the ClientHello carries several classical or several hybrid key shares: Ecdhe
+	// is the key of the first classical share only, Mlkem and MlkemEcdhe belong to the
+	// last hybrid share. A group without an entry falls back to the fields above.
+	EcdheKeys map[CurveID]*ecdh.PrivateKey
+	MlkemKeys map[CurveID]*mlkem.DecapsulationKey768
+}
+
+// retain records the private key(s) generated for the key share of group, so that the
+// handshake can use them whichever offered share the server selects. The first share of a
+// group wins.
+func (ksp *KeySharePrivateKeys) retain(group CurveID, ecdheKey *ecdh.PrivateKey, mlkemKey *mlkem.DecapsulationKey768) {
+	if _, dup := ksp.EcdheKeys[group]; dup {
+		return
+	}
+	if ksp.EcdheKeys == nil {
+		ksp.EcdheKeys = make(map[CurveID]*ecdh.PrivateKey)
+	}
+	ksp.EcdheKeys[group] = ecdheKey
+	if mlkemKey != nil {
+		if ksp.MlkemKeys == nil {
+			ksp.MlkemKeys = make(map[CurveID]*mlkem.DecapsulationKey768)
+		}
+		ksp.MlkemKeys[group] = mlkemKey
+	}
 }
 
 func (ksp *KeySharePrivateKeys) ToPrivate() *keySharePrivateKeys {
@@ -901,6 +928,8 @@ func (ksp *KeySharePrivateKeys) ToPrivate() *keySharePrivateKeys {
 		ecdhe:      ksp.Ecdhe,
 		mlkem:      ksp.Mlkem,
 		mlkemEcdhe: ksp.MlkemEcdhe,
+		ecdheKeys:  ksp.EcdheKeys,
+		mlkemKeys:  ksp.MlkemKeys,
 	}
 }
 
@@ -913,5 +942,7 @@ func (ksp *keySharePrivateKeys) ToPublic() *KeySharePrivateKeys {
 		Ecdhe:      ksp.ecdhe,
 		Mlkem:      ksp.mlkem,
 		MlkemEcdhe: ksp.mlkemEcdhe,
+		EcdheKeys:  ksp.ecdheKeys,
+		MlkemKeys:  ksp.mlkemKeys,
 	}
 }
